@@ -71,6 +71,15 @@ def _canonical_walk(ctx: Ctx, rs: RuleSet, w):
     w = tgt
   visit = next(iter(w.nested.values()), None)
   if visit is None:
+    # the recursive walk written as a module-level function that takes its
+    # accumulators as parameters
+    for c_ in ctx.calls(w):
+      h_ = ctx.p.funcs.get(ctx.p.resolve(c_.func, w) or '')
+      if h_ is not None and not h_.is_lambda and h_ is not w and any(
+          isinstance(x_, ast.Call) and ctx.p.resolve(
+              x_.func, h_) == h_.qualname for x_ in walk_function(h_.node)):
+        visit = h_
+  if visit is None:
     raise AnalysisError(f'{w.qualname}: nested visit function not found')
   # children come from flatten + path_elements of one traverser and are
   # iterated in sorted(path element) order
@@ -173,6 +182,19 @@ def run(ctx: Ctx, rs: RuleSet, tier: str):
               a0 = c.args[0]
               if isinstance(a0, ast.Attribute) and a0.attr == fld:
                 return True
+            # a helper that turns the key into its sortable stand-in
+            if isinstance(c, ast.Call) and len(c.args) == 1 and isinstance(
+                c.args[0], ast.Attribute) and c.args[0].attr == fld:
+              h_ = p.funcs.get(p.resolve(c.func, m) or '')
+              if h_ is not None and not h_.is_lambda and h_.params:
+                from fdlstatic.rules import c08 as _c08
+                r_, _ = _c08.fn_return(h_)
+                if r_ is not None and any(
+                    isinstance(x_, ast.Call) and isinstance(
+                        x_.func, ast.Name) and x_.func.id in ('repr', 'str')
+                    and x_.args and unparse(x_.args[0]) == h_.params[0]
+                    for x_ in ast.walk(r_)):
+                  return True
           return False
         fallback = any(isinstance(r, ast.Return) and isinstance(
             r.value, ast.Compare) and value_dependent(r.value)
@@ -194,8 +216,9 @@ def run(ctx: Ctx, rs: RuleSet, tier: str):
               if isinstance(call, ast.Call) and unparse(
                   call.func) == 'isinstance' and len(call.args) == 2 and (
                       fld in unparse(call.args[0])):
-                tys = call.args[1].elts if isinstance(
-                    call.args[1], ast.Tuple) else [call.args[1]]
+                tyarg = ctx.const(call.args[1], m)
+                tys = tyarg.elts if isinstance(
+                    tyarg, ast.Tuple) else [tyarg]
                 restricted = all(unparse(x) in TOTAL for x in tys)
         guarded = restricted and same_type and fallback
       rs.check(total or guarded, rule, f'{m.qualname}:{fld}',
@@ -342,6 +365,40 @@ def run(ctx: Ctx, rs: RuleSet, tier: str):
   x, y = cb.params[0], cb.params[1]
   g = ctx.cfg(cb)
   src_tests = [unparse(g.stmt[n].test) for n in g.nodes() if g.kind[n] == 'if']
+  # tests made by a private helper that receives both operands count too,
+  # read with the operands' names (the helper's False answer must make the
+  # comparison False: it is called as `if not helper(x, y): return False`)
+  import re as _re0
+  for n in g.nodes():
+    if g.kind[n] != 'if':
+      continue
+    t_ = g.stmt[n].test
+    neg = isinstance(t_, ast.UnaryOp) and isinstance(t_.op, ast.Not)
+    c_ = t_.operand if neg else t_
+    if isinstance(c_, ast.BoolOp):
+      c_ = next((v_.operand for v_ in c_.values if isinstance(
+          v_, ast.UnaryOp) and isinstance(v_.op, ast.Not) and isinstance(
+              v_.operand, ast.Call)), None)
+      neg = c_ is not None
+    if not (neg and isinstance(c_, ast.Call) and len(c_.args) == 2 and
+            [unparse(a_) for a_ in c_.args] == [x, y]):
+      continue
+    h_ = p.funcs.get(p.resolve(c_.func, cb) or '')
+    falls = [x_ for x_, lab in g.succ[n] if lab == 'true']
+    if h_ is None or h_.is_lambda or h_.module is not cb.module or not any(
+        isinstance(g.stmt[m_], ast.Return) and unparse(
+            g.stmt[m_].value) == 'False' for m_ in falls):
+      continue
+    gh = ctx.cfg(h_)
+    for m_ in gh.nodes():
+      if gh.kind[m_] == 'if' and any(
+          isinstance(gh.stmt[k_], ast.Return) and unparse(
+              gh.stmt[k_].value) == 'False'
+          for k_, lab in gh.succ[m_] if lab == 'true'):
+        txt = unparse(gh.stmt[m_].test)
+        txt = _re0.sub(rf'\b{h_.params[0]}\b', '\0', txt)
+        txt = _re0.sub(rf'\b{h_.params[1]}\b', y, txt).replace('\0', x)
+        src_tests.append(txt)
   rs.check(f'type({x}) is not type({y})' in src_tests, rule,
            f'{cb.qualname}:type', 'different Buildable types are unequal',
            ctx.loc(cb, cb.node))
@@ -579,9 +636,14 @@ def run(ctx: Ctx, rs: RuleSet, tier: str):
   # statement form used by _set_item_by_index (S replaced when None)
   gd = ctx.func('fiddle._src.signatures.SignatureInfo.get_default')
   g = ctx.cfg(gd)
-  lookups = [n for n in g.nodes() if isinstance(g.stmt[n], ast.Assign) and
+  arg_names = {gd.params[1]}
+  for _ in range(3):
+    arg_names |= roles.assigned_from(gd, lambda e: isinstance(
+        e, ast.Name) and e.id in arg_names)
+  lookups = [n for n in g.nodes() if isinstance(
+      g.stmt[n], (ast.Assign, ast.Return)) and g.kind[n] == 'stmt' and
              isinstance(g.stmt[n].value, ast.Subscript) and
-             unparse(g.stmt[n].value.slice) == gd.params[1]]
+             unparse(g.stmt[n].value.slice) in arg_names]
   rs.check(bool(lookups), rule, f'{gd.qualname}:index-lookup',
            'an int argument is resolved to the parameter at that index',
            ctx.loc(gd, gd.node))
